@@ -22,7 +22,7 @@ def observe(res):
 def run(res, tier, seed, replay):
     fam = json.load(open(vlib.VERIF + "/tools/sigfam.json"))
     res.cov["rule"] = (f"real: a generated family of {len(fam)} function-pointer types (single-feature variations of fn(u64, &u8) -> u64 in arity, one parameter type, return type, reference mutability, raw-pointer mutability, unsafety, ABI, plus a lifetime-only variant and "
-                       "bool-returning traps), one target and one fake item of each; ALL ordered pairs through func! (explicit-type form and the simplified arms), closure!, fake!, the unchecked macros on either or both sides, a replacement pointer that holds the target's OWN address under the other type, null pointers, and the async macros over 4 output types; "
+                       "bool-returning traps), one target and one fake item of each; ALL ordered pairs through func! (explicit-type form and the simplified arms), closure!, fake!, fake! itself arm by arm (every option combination of the macro: identical target accepted, target differing only in `unsafe` refused), the unchecked macros on either or both sides, a replacement pointer that holds the target's OWN address under the other type, null pointers, and the async macros over 4 output types; "
                        "the whole table twice: attempted on an ordinary thread, and attempted from a destructor that runs while the thread is unwinding from an earlier panic; observed per pair: accepted / signature-mismatch panic / null-pointer panic / other, and that the target's bytes are untouched by a refusal; the model's gate (token equality of the Coq printer) predicts every cell, "
                        "and the printer is compared with rustc's type_name of every family member; pairs differing only in lifetime spelling are run and logged, not judged; distinct = distinct (form, feature of target, feature of fake, outcome)")
     res.cov["trusted_base"] = vlib.TRUSTED_COMMON + ["the renderer of token lists to type_name syntax in extract/driver.ml and the compact type syntax parser", "rustc's type_name rendering is checked on the family on every run, not in general"]
@@ -80,6 +80,25 @@ def run(res, tier, seed, replay):
                 if b < len(row) and row[b] != want:
                     res.violation(f"async gate: faking an async fn of output {t} with a value of type {u} gave {row[b]}, expected {want}", dict(target=t, value=u, context=ctx or "ordinary"), row)
         if O["misc"].get("ASYNC_UNCHECKED_FAKE" + ctx) != "sig": res.violation("async: a checked target paired with an unchecked value was not refused", {}, O["misc"].get("ASYNC_UNCHECKED_FAKE" + ctx))
+    # the same gate for the pointers fake! produces, ARM BY ARM (every option combination found in the source): a target identical to what the user
+    # wrote is accepted, one that differs only in `unsafe` is refused with a signature mismatch
+    import os, shutil, armlib, fake_translate
+    arms, total = fake_translate.regenerate(vlib.REPO, vlib.COQ)
+    work = os.path.join(vlib.BUILD, "arms_c09"); shutil.rmtree(work, ignore_errors=True)
+    R = armlib.compile_and_run(res, arms, work)
+    for a in (arms if R else []):
+        r = R[a["index"]]
+        if not r["compiled"]: continue                                     # C08's subject
+        desc = ("unsafe " if a["m_unsafe"] else "") + (f'extern "{a["m_abi"]}" ' if a["m_abi"] else "") + "fn(..) -> " + ("()" if a["m_unit"] else "$ret") + " ; " + ",".join(k for k in ("when", "assign", "returns", "times") if a[k])
+        case = dict(arm=a["index"], combination=desc, program=os.path.join(work, f"arm_{a['index']}.rs"))
+        gate = [l.split()[1] for l in r["lines"] if l.startswith("GATE")]
+        cells += 2
+        if gate != ["sig"]:
+            res.violation(f"fake! arm: a target that differs from the written type only in `unsafe` was not refused with a signature mismatch (observed {gate})", case, r["lines"][:3])
+        if not any(l.startswith("CALL 0 ret") or l.startswith("CALL 0 args") or l.startswith("CALL 0 over") for l in r["lines"]) and r["status"] == 0:
+            res.violation("fake! arm: a target of exactly the written type was refused (the pointer the arm produces does not carry the type the user wrote)", case, r["lines"][:4])
+        elif r["status"] != 0 and not any(l.startswith("CALL") for l in r["lines"]):
+            res.violation("fake! arm: a target of exactly the written type was refused (the program died at installation)", case, r["lines"][:4])
     res.extra["lifetime_only_pairs_logged_not_judged"] = lifetime_pairs[:8]
     res.cov["evaluations"] += cells; res.cov["traces_validated_against_impl"] += cells; res.cov["distinct_nontrivial"] += len(distinct)
     ix = {m["name"]: i for i, m in enumerate(fam)}
